@@ -90,6 +90,39 @@ def rule_R4(chk, repo):
     chk.floor(rid, n, 20)
 
 
+def rule_R7(chk, repo):
+    """the sparsity mask of site i is computed from the labels of site i"""
+    rid = 'C02.R7'
+    chk.rule(rid, 'constructors: the loop that enforces the sparsity pattern treats every site independently - no local (mask, '
+                  'shape, label) is carried from one site to the next (definite assignment relative to the loop entry), and the '
+                  'mask of site i is the outer sum of the labels of that site: qd, (-qd,) qD[i], -qD[i+1]')
+    from .. import defassign
+    from ..match import pmatch
+    n = 0
+    for q, pat in (('mps.MPS.__init__', 'qnumber_outer_sum([self.qd, self.qD[__i], -self.qD[__i + 1]])'),
+                   ('mpo.MPO.__init__', 'qnumber_outer_sum([self.qd, -self.qd, self.qD[__i], -self.qD[__i + 1]])')):
+        fi = repo.func(q)
+        loops = [l for l in ast.walk(fi.node) if isinstance(l, ast.For) and
+                 any(isinstance(c, ast.Call) and norm(c.func) == 'qnumber_outer_sum' for c in ast.walk(l))]
+        if len(loops) != 1:
+            raise AnalysisError(f'{q}: masking loop not found')
+        loop = loops[0]
+        found, nreads = defassign.loop_carried(fi.node, loop)
+        bad = {}
+        for node, name, why in found:
+            bad.setdefault(name, node)
+        chk.ob(rid, where(repo, fi, loop), f'{fi.qual}: the masking loop carries no local from site to site ({nreads} reads)', not bad,
+               '; '.join(f'`{k}` read at line {v.lineno} may stem from an earlier site' for k, v in sorted(bad.items())),
+               key=f'{rid}|{q}|carried')
+        calls = [c for c in ast.walk(loop) if isinstance(c, ast.Call) and norm(c.func) == 'qnumber_outer_sum']
+        var = norm(loop.target)
+        ok = len(calls) == 1 and (pmatch(pat, calls[0]) or {}).get('__i') == var
+        chk.ob(rid, where(repo, fi, calls[0]), f'{fi.qual}: the mask of site {var} is built from the labels of site {var}', bool(ok),
+               norm(calls[0])[:90], key=f'{rid}|{q}|mask')
+        n += 2
+    chk.floor(rid, n, 4, hard_min=4)
+
+
 def run(chk, repo, tier):
     rule_R1(chk, repo)
     rule_R2(chk, repo)
@@ -100,6 +133,7 @@ def run(chk, repo, tier):
                         'block QR / SVD return intermediate quantum numbers consistent with their factors: frames, '
                         'charge tags, block reads / stores, dummy bond, truncation (rules of C11 / C12 re-evaluated)')
     support.ownership_rules(chk, repo, 'C02.R6')
+    rule_R7(chk, repo)
     chk.assume('class invariant used for loads: X.qd is an ndarray, X.qD a list of ndarrays (it is what the stores establish)')
     chk.undecided += ['that numerical blocks vanish', 'that the total charges of a non-zero state survive',
                       'histories beyond "every operation individually re-establishes label / tensor agreement"']
